@@ -5,7 +5,7 @@ cd /verif
 dirs="$@"; [ -z "$dirs" ] && dirs=$(ls -d seeded/*/ | xargs -n1 basename)
 git -C /repo status --short | grep -v '^??' && { echo "/repo not clean"; exit 1; }
 for d in $dirs; do
-  prop=${d#r2-}
+  prop=$(echo $d | grep -o 'C[0-9][0-9]' | head -1)
   [ -f seeded/$d/patch.diff ] || continue
   if ! git -C /repo apply /verif/seeded/$d/patch.diff; then echo "$d: patch does not apply"; continue; fi
   bin/check $prop > seeded/$d/check_result_final.txt 2>&1; echo "check rc=$?" >> seeded/$d/check_result_final.txt
